@@ -141,6 +141,7 @@ NAMED = {
 }
 
 
+
 def _classes(w: LifeWorld, names: list[str]) -> dict[str, str]:
     return {n: (w.outcome(n) or "pending") for n in names}
 
@@ -168,6 +169,11 @@ def _run_seq(cfg: tuple[bool, str, tuple[str, ...]], labels: list[Any], n_first:
                 "log": list(w.log), "state": w.state(), "after_first": after_first, "closed_after_first": closed_after_first}
     finally:
         h.close(w)
+
+
+# rejecting answers of the device: the answer itself is the cause, from the moment it has been read - also when the connect task has not
+# yet woken up to evaluate it and something else goes wrong in that very loop turn
+VERDICTS = ("c:BV", "c:BP")
 
 
 def _diff_job(args: tuple[Any, ...]) -> dict[str, Any]:
@@ -212,7 +218,7 @@ def _diff_job(args: tuple[Any, ...]) -> dict[str, Any]:
             out["runs"] += 1
             if r["viol"]:
                 out["viol"].append({"clause": r["viol"][0], "labels": labels, "n_first": nf, "log": r["log"]})
-            if nd and not r["closed_after_first"]:
+            if nd and not r["closed_after_first"] and name not in VERDICTS:
                 # the library has not seen F1 yet after one loop iteration (e.g. a reset is reported to the protocol one
                 # turn later): whatever comes next is the first cause from its point of view - nothing to compare
                 continue
@@ -258,7 +264,12 @@ def interrupt_sweep(res: Result) -> int:
 
     n = 0
     answers = ("bad-name", "bad-version", "bad-password", "wrong-psk", "error-frame", "enc-marker", "garbage", "eof")
-    interrupts = ("none", "cancel-same-turn", "cancel-before", "cancel-next-turn", "force-same-turn", "disc-same-turn", "eof-same-turn")
+    interrupts = ("none", "cancel-same-turn", "cancel-before", "cancel-next-turn", "force-same-turn", "disc-same-turn", "eof-same-turn",
+                  "garbage-same-segment")
+    # when a second *failure* follows the rejecting answer (in the same segment, or as the very next event), the answer was the first cause
+    first_cause_class = {"bad-name": "BadNameAPIError", "bad-version": "APIConnectionError", "bad-password": "InvalidAuthAPIError",
+                         "wrong-psk": "InvalidEncryptionKeyAPIError", "error-frame": "InvalidEncryptionKeyAPIError",
+                         "enc-marker": "RequiresEncryptionAPIError"}
     for noise in (True, False):
         for ans in answers:
             if ans in ("wrong-psk", "error-frame") and not noise:
@@ -296,6 +307,13 @@ def interrupt_sweep(res: Result) -> int:
                             if not (noise and ans in ("bad-name", "wrong-psk")):
                                 hello = w.hello_resp(major=3) if ans == "bad-version" else w.hello_resp()
                                 data += w.dframe(hello) + w.dframe(w.connect_resp(invalid=(ans == "bad-password")))
+                        if intr == "garbage-same-segment":
+                            if data is None or ans == "garbage":
+                                continue
+                            if noise and w.ndev is not None and w.ndev.r.tx is not None and ans not in ("wrong-psk", "error-frame", "bad-name"):
+                                data += w.ndev.data_frame(1, b"\xff\xff\xff")  # a frame that decrypts but is no HelloResponse... undecodable payload
+                            else:
+                                data += b"\x7f\x7f\x7fgarbage" if not noise else b"\x00\x00\x01x"
                         if intr == "cancel-before":
                             w.cancel("finish")
                         if data is None:
@@ -334,6 +352,13 @@ def interrupt_sweep(res: Result) -> int:
                         elif r[0] == "cancelled":
                             if not intr.startswith("cancel"):
                                 res.add(key + ":cancelled", f"C09:unclassified:finish_connection ended cancelled although nobody cancelled it ({d})", d)
+                        elif (intr in ("garbage-same-segment", "eof-same-turn", "none") and ans in first_cause_class
+                              # (over Noise this sweep sends the hello/login answers in the handshake's segment, before the client asked:
+                              # only the answers decided by the handshake itself are judged there)
+                              and (not noise or ans in ("bad-name", "wrong-psk", "error-frame"))
+                              and not (ans == "bad-password" and not login) and type(r[1]).__name__ != first_cause_class[ans]):
+                            res.add(key + ":first-cause", f"C09:first-cause:the device answered {ans} ({'then ' + intr if intr != 'none' else 'nothing else'}): "
+                                    f"finish_connection ended {type(r[1]).__name__}, expected {first_cause_class[ans]} ({d})", d)
                         elif not isinstance(r[1], (APIConnectionError, asyncio.CancelledError)):
                             res.add(f"interrupt:{'noise' if noise else 'plain'}:{ans}:{intr}:{type(r[1]).__name__}",
                                     f"C09:unclassified:finish_connection raised {type(r[1]).__name__}: {r[1]} - device answered {ans}, "
